@@ -15,6 +15,12 @@ The executable model is `PgFdr/Model/C20.lean` (`PG`, `step`, `run`, the lookups
 constructors of the class (`ProteinGroups()`, `ProteinGroups(gs)`, `init_from_list(gs)`) followed by
 any finite history of method calls; `run init ops` is such a state for every `ops`.
 `getGroups` is the repaired `get_protein_groups` (the −1 marker is dropped, not used as a position).
+The history alphabet `Op` contains, besides the methods of the class, the package's other mutating
+callers of a collection: `RescuedGrouping.update_protein_groups` (`Op.updateRescued`) and
+`ConnectedProteinGraphs.get_connected_proteins` / `decouple_connected_proteins`
+(`Op.mergeComponents`); `RescuedGrouping.merge_with_rescued_protein_groups` is `Op.addUnseen` with the
+groups of a second live collection as argument, `ObservedPeptides.generate_protein_groups` is proved to be
+a history of this machine in `Props/C03.lean` (`generatePG`).
 -/
 set_option linter.unusedSectionVars false
 namespace PgFdr.C20
@@ -78,7 +84,8 @@ theorem lookup_exact (pg : PG P) (hr : Reachable pg) (p : P) (g : List P)
     (single, positions, groups, helpers) fails with the invalid-index error -/
 theorem mutators_invalidate (pg : PG P) (op : Op P)
     (hop : (∃ g, op = .append g) ∨ (∃ gs, op = .extend gs) ∨
-           (∃ sup p pg', op = .merge sup p ∧ mergeGroups pg sup p = .ok pg')) :
+           (∃ sup p pg', op = .merge sup p ∧ mergeGroups pg sup p = .ok pg') ∨
+           (∃ obs, op = .updateRescued obs)) :
     (step pg op).1.valid = false ∧
     (∀ p, getGroup (step pg op).1 p = .error .invalidIndex) ∧
     (∀ p, getIdx (step pg op).1 p = .error .invalidIndex) ∧
@@ -97,11 +104,59 @@ theorem mutators_invalidate (pg : PG P) (op : Op P)
     · intro ps; simp [getGroups, h3 ps]
     · intro p ps; simp [getLeading, leadingList, h2 p]
   have hv : (step pg op).1.valid = false := by
-    rcases hop with ⟨g, rfl⟩ | ⟨gs, rfl⟩ | ⟨sup, p, pg', rfl, hm⟩
+    rcases hop with ⟨g, rfl⟩ | ⟨gs, rfl⟩ | ⟨sup, p, pg', rfl, hm⟩ | ⟨obs, rfl⟩
     · rfl
     · rfl
     · simp only [step, hm]; exact (mergeGroups_ok pg pg' sup p hm).1
+    · rfl
   exact ⟨hv, key _ hv⟩
+
+/-- "after any sequence of additions …" made by the package's OTHER mutating callers: the rescue step
+    (`RescuedGrouping.update_protein_groups`) grows the collection exactly as `extend` does — same new
+    state (flag down), same answer -/
+theorem rescued_update_is_extend (pg : PG P) (obs : List (List P)) :
+    step pg (.updateRescued obs) = step pg (.extend obs) := rfl
+
+/-- "… merges and clean-ups": the connected-component callers of graphs.py
+    (`get_connected_proteins`, `decouple_connected_proteins`) either finish — then they ended with
+    `remove_empty_groups` and the index is valid and is the index of the groups they leave — or raise
+    — then they changed nothing or left the flag down, so no default lookup answers from the index
+    they made stale; a component with a protein node fails only with the unknown-protein error -/
+theorem connected_callers_rebuild_or_fail_loudly (pg : PG P) (cs : List (List P)) :
+    ((step pg (.mergeComponents cs)).2 = .unit →
+      (step pg (.mergeComponents cs)).1.valid = true ∧
+      (step pg (.mergeComponents cs)).1.index = buildIndex (step pg (.mergeComponents cs)).1.groups) ∧
+    (∀ e, (step pg (.mergeComponents cs)).2 = .err e →
+      (step pg (.mergeComponents cs)).1 = pg ∨
+      ((step pg (.mergeComponents cs)).1.valid = false ∧
+       ∀ p, getGroup (step pg (.mergeComponents cs)).1 p = .error .invalidIndex)) := by
+  constructor
+  · intro h
+    rw [step_mergeComponents_fst]
+    apply mergeComponents_ok
+    simp only [step] at h
+    cases hm : mergeComponents pg cs with
+    | mk pg' oe =>
+      rw [hm] at h
+      cases oe with
+      | none => rfl
+      | some e => simp at h
+  · intro e h
+    rw [step_mergeComponents_fst]
+    simp only [step] at h
+    cases hm : mergeComponents pg cs with
+    | mk pg' oe =>
+      rw [hm] at h
+      cases oe with
+      | none => simp at h
+      | some e' =>
+        have := mergeComponents_error cs pg e' (by rw [hm])
+        rw [hm] at this
+        rcases this with h1 | h1
+        · exact Or.inl h1
+        · refine Or.inr ⟨h1, fun p => ?_⟩
+          simp only [] at h1
+          simp [getGroup, getIdx, h1]
 
 /-- a `merge_groups` that raises (unknown protein) changes nothing, and lookups never change the state -/
 theorem failed_merge_and_lookups_change_nothing (pg : PG P) :
@@ -284,5 +339,22 @@ example : getIdxs (run (init : PG String) demoOps) ["X", "B"] = .ok [none, some 
 example : mergeGroups (run (init : PG String) (demoOps.take 3)) "A" "C" =
     .ok ⟨[["A", "B", "C"], []], buildIndex [["A", "B"], ["C"]], false⟩ := by decide
 example : Reachable (run (init : PG String) demoOps) := reachable_run _ _ .init
+
+/-- the rescue step on an indexed collection, then the component caller -/
+def demoCallers : List (Op String) :=
+  [.append ["A"], .append ["B"], .append ["C"], .createIndex, .updateRescued [["OBSOLETE__A"]]]
+
+example : getGroup (run (init : PG String) demoCallers) "OBSOLETE__A" = .error .invalidIndex := by decide
+example : getIdxs (run (init : PG String) demoCallers) ["OBSOLETE__A"] = .error .invalidIndex := by decide
+example : getGroup (run (init : PG String) (demoCallers ++ [.createIndex])) "OBSOLETE__A" = .ok ["OBSOLETE__A"] := by
+  decide
+example : (step (run (init : PG String) (demoCallers ++ [.createIndex])) (.mergeComponents [["A", "C"], ["B"]])).1.groups
+    = [["A", "C"], ["B"], ["OBSOLETE__A"]] := by decide
+example : (mergeComponents (run (init : PG String) (demoCallers ++ [.createIndex])) [["A", "C"], ["B"]]).2
+    = none := by decide
+example : (mergeComponents (run (init : PG String) (demoCallers ++ [.createIndex])) [["A", "C", "X"]]).2
+    = some .unknownProtein := by decide
+example : (step (run (init : PG String) (demoCallers ++ [.createIndex])) (.mergeComponents [["A", "C", "X"]])).1.valid
+    = false := by decide
 
 end PgFdr.C20
